@@ -79,13 +79,38 @@ pub fn run(args: &Args) {
                 let t = Printer::new(&mut rng).emit(&tree).unwrap_or_else(|_| "@".into());
                 (mutate_tokens(&t, &mut rng).unwrap_or(t), serde_json::to_string(&d).unwrap().into_bytes())
             }
+            8 if i % 3 == 0 => {
+                // results whose printed form has a long last line, with and without line breaks inside
+                let n = [1000usize, 1023, 1024, 1025, 4095, 4096, 4097, 8191, 8192, 8193, 65536, 70000][rng.below(12)] + rng.below(3);
+                let head = ["", "head\n", "a\nb\n", "\n", "é\n"][rng.below(5)];
+                let tail: String = if rng.chance(1, 4) { "é".repeat(n / 2) } else { "0".repeat(n) };
+                let d = json!({"a": format!("{}{}", head, tail), "xs": [format!("{}{}", head, tail), 1], "o": {"k": tail}});
+                (["a", "@.a", "xs[0]", "xs", "o", "o.k", "[a, a]", "join('', [a, a])"][rng.below(8)].to_string(), serde_json::to_string(&d).unwrap().into_bytes())
+            }
             8 => (char_soup(&mut rng, 10), fixed_doc.as_bytes().to_vec()),
             _ => ("@".to_string(), fixed_doc.as_bytes().to_vec()),
         };
         // input variants
         let expr_text = if rng.chance(1, 25) { format!("{}{}", expr_text, ["\u{B}", "\u{A0}", "\u{2028}", "\u{3000}", "\u{85}"][rng.below(5)]) } else { expr_text };
         const EXOTIC_BLANKS: [&str; 10] = ["\u{B}", "\u{C}", "\u{85}", "\u{A0}", "\u{2028}", "\u{2029}", "\u{3000}", "\u{FEFF}", "\u{200B}", "\u{1680}"];
-        let input: Vec<u8> = match rng.below(29) {
+        let input: Vec<u8> = match rng.below(33) {
+            // JSON that goes wrong next to a multi-byte character (diagnostics that quote the input)
+            29 => [&b"{\"a\":\"\\u00"[..], "é\"}".as_bytes()].concat(),
+            30 => ["\"\\u0€\"", "\"\\ud83d\\u00é\"", "\"\\u😀\"", "[\"é\\x\"]", "{\"é\": tru}", "[1, é]", "\"日本\\"][rng.below(7)].as_bytes().to_vec(),
+            31 => {
+                // the document cut at an arbitrary byte (possibly inside a character)
+                let cut = rng.below(doc_text.len().max(1));
+                doc_text[..cut].to_vec()
+            }
+            32 => {
+                // one byte of the document replaced
+                let mut v = doc_text.clone();
+                if !v.is_empty() {
+                    let at = rng.below(v.len());
+                    v[at] = [b'\\', b'"', 0xC3, 0xFF, b'\n', b'}', 0x00, b'u'][rng.below(8)];
+                }
+                v
+            }
             // characters Unicode calls white space, JSON and JMESPath do not
             26 => format!("{}{}", String::from_utf8_lossy(&doc_text), EXOTIC_BLANKS[rng.below(10)]).into_bytes(),
             27 => format!("{}{}", EXOTIC_BLANKS[rng.below(10)], String::from_utf8_lossy(&doc_text)).into_bytes(),
